@@ -227,6 +227,14 @@ func (x *fnExec) execInstr(p *Path, ins ssa.Instruction) []Outcome {
 		if s.Off == 0 && len(arr.E) == n && s.N.IsConst() && int(s.N.Val) >= n {
 			return one(st, &PtrV{Obj: s.Obj, Path: s.Path})
 		}
+		if s.N.IsConst() && int(s.N.Val) >= n && s.Off+n <= len(arr.E) {
+			// a window into a larger array: pointers cannot address a sub-range, so the window is copied. Exact for the
+			// value conversion [n]T(slice) (pointer dereferenced at once); a write through the pointer would be lost,
+			// which is recorded as a stub so that it shows in the evidence.
+			e.rep.noteStub("slice-to-array-pointer into a sub-range: window copied (reads only)")
+			id := e.alloc(st, &ArrayV{E: append([]Value{}, arr.E[s.Off:s.Off+n]...)})
+			return one(st, &PtrV{Obj: id})
+		}
 		panic(e.abort("SliceToArrayPointer: unsupported window (off=%d n=%d len=%v arr=%d)", s.Off, n, s.N, len(arr.E)))
 	case *ssa.Range:
 		return e.rangeOp(st, x.eval(p, in.X), x.fn)
